@@ -181,9 +181,11 @@ fn num_cmp_exact_float_float() {
 }
 
 // the int/float queries mix IEEE operations of the code with the integer-only spec;
-// cvc5 closes them in about a minute where the default SAT back end needs much longer (measured)
+// kissat closes them in 1-2 minutes where the default CaDiCaL needs much longer (measured). NOTE: CBMC's SMT back end
+// (cvc5) was tried and is NOT used: it reported a spurious counterexample on keynum_image_order_exact_range that the
+// SAT back ends refute, so its verdicts on float/int conversions are not trusted here.
 #[kani::proof]
-#[kani::solver(cvc5)]
+#[kani::solver(kissat)]
 fn num_cmp_exact_i64_float() {
     let a = Number::Int64(kani::any());
     let b = Number::Float64(kani::any());
@@ -191,7 +193,7 @@ fn num_cmp_exact_i64_float() {
 }
 
 #[kani::proof]
-#[kani::solver(cvc5)]
+#[kani::solver(kissat)]
 fn num_cmp_exact_float_i64() {
     let a = Number::Int64(kani::any());
     let b = Number::Float64(kani::any());
@@ -199,7 +201,7 @@ fn num_cmp_exact_float_i64() {
 }
 
 #[kani::proof]
-#[kani::solver(cvc5)]
+#[kani::solver(kissat)]
 fn num_cmp_exact_u64_float() {
     let a = Number::UInt64(kani::any());
     let b = Number::Float64(kani::any());
@@ -207,7 +209,7 @@ fn num_cmp_exact_u64_float() {
 }
 
 #[kani::proof]
-#[kani::solver(cvc5)]
+#[kani::solver(kissat)]
 fn num_cmp_exact_float_u64() {
     let a = Number::UInt64(kani::any());
     let b = Number::Float64(kani::any());
@@ -216,7 +218,7 @@ fn num_cmp_exact_float_u64() {
 
 /// the real order is a total order on triples (direct statement; long-running, thorough tier)
 #[kani::proof]
-#[kani::solver(cvc5)]
+#[kani::solver(kissat)]
 fn num_cmp_total_order() {
     let a = any_number();
     let b = any_number();
@@ -295,7 +297,7 @@ fn exactly_representable(n: &Number) -> bool {
 /// key order == compare order for all floats except -0.0 (NaN canonical) and all integers with |v| <= 2^53
 /// (big-endian bytes of u64 compare lexicographically like the u64 themselves)
 #[kani::proof]
-#[kani::solver(cvc5)]
+#[kani::solver(kissat)]
 fn keynum_image_order_exact_range() {
     let a = any_number();
     let b = any_number();
@@ -305,7 +307,7 @@ fn keynum_image_order_exact_range() {
 
 /// the same over ALL numbers (expected to fail on the current tree: finding F13)
 #[kani::proof]
-#[kani::solver(cvc5)]
+#[kani::solver(kissat)]
 fn keynum_image_order_full() {
     let a = any_number();
     let b = any_number();
